@@ -77,7 +77,7 @@ def liveness():
     c = subprocess.Popen(["sleep", "60"], stdout=subprocess.DEVNULL)
     for _ in range(500):            # wait for the exec to complete
         try:
-            if os.readlink("/proc/%d/exe" % c.pid).endswith("sleep"):
+            if os.readlink("/proc/%d/exe" % c.pid).endswith("sleep") and open("/proc/%d/cmdline" % c.pid, "rb").read():
                 break
         except OSError:
             pass
@@ -196,8 +196,16 @@ def roundtrip():
 
 
 def run():
-    n1, m1 = liveness()
-    n2, m2 = roundtrip()
+    for attempt in range(4):        # the specimens are real processes on a possibly loaded machine: re-measure before complaining
+        n1, m1 = liveness()
+        if not m1:
+            break
+        time.sleep(0.2)
+    for attempt in range(4):
+        n2, m2 = roundtrip()
+        if not m2:
+            break
+        time.sleep(0.2)
     return {"liveness_cells": n1, "liveness_mismatches": [list(map(str, m)) for m in m1],
             "roundtrip_specimens": n2, "roundtrip_mismatches": [list(map(str, m)) for m in m2]}
 
